@@ -7,6 +7,7 @@ HARNESSES = {
     'map_iter': {'src': ['harness/map_iter.cc'], 'flavours': {}, 'rt': []},
     'ipc_sim': {'src': ['harness/ipc_sim.cc'], 'flavours': {}, 'rt': []},
     'loop_sim': {'src': ['harness/loop_sim.cc'], 'flavours': {}, 'rt': []},
+    'blackbox': {'src': ['harness/blackbox.cc'], 'flavours': {}, 'rt': []},
     'ring_conc_t': {'src': ['harness/ring_conc.cc'], 'flavours': {'ringbuffer.c': 'tsan', 'ringbuffer_helper.c': 'tsan'},
                     'rt': ['rt_tsan.o'], 'cxxflags': ['-DHARNESS_NAME="ring_conc_t"', '-DORDER_CHECK=1']},
     'ring_conc_a': {'src': ['harness/ring_conc.cc'], 'flavours': {'ringbuffer.c': 'acc', 'ringbuffer_helper.c': 'acc'},
@@ -225,7 +226,7 @@ PROPS['C02'] = _ipc('no hostile party', 'at least two messages were delivered an
     technique='deterministic simulation with fault injection (EINTR, short stream I/O, tiny SO_SNDBUF making the notification socket really fill), FIFO reference models, ddmin replay',
     design_ref='DESIGN.md 4/C02',
     assumptions=['one thread per process', 'abstract-namespace sockets (no /etc/libqb/force-filesystem-sockets)'])
-PROPS['C03'] = _ipc('no hostile party', 'at least one connection was announced and the baton changed hands more than four times',
+PROPS['C03'] = _ipc('no hostile party; a second part enumerates, for five fixed base scenarios x two transports x victim in {client, server}, every kill point k < 296 of the victim (kill immediately before its k-th libc call) plus every prefix length of the connection request, each under three schedules', 'at least one connection was announced and the baton changed hands more than four times',
     level_text='seeded search over crash points: the victim (a client, or the server) is killed immediately before a seeded libc call of its own '
                '(kill points recorded per task, so they survive shrinking), with short handshake writes, on both transports; oracles: destroyed exactly '
                'once / closed iff created, witness clients still served, server descriptors and /dev/shm back to baseline, client calls bounded in '
@@ -233,9 +234,13 @@ PROPS['C03'] = _ipc('no hostile party', 'at least one connection was announced a
     level_note='crash points are libc-call boundaries of the dying process (not mid-ring-operation instants); latency is the time the call itself spent '
                'waiting, scheduling latency of the caller excluded; plain qb_ipcc_recv(-1) is not required to return (the property promises that only for '
                'sendv_recv and event_recv); thorough tier samples more kill points, it does not yet enumerate all of them',
-    technique='deterministic simulation with crash injection at every libc-call boundary of the victim, virtual time, descriptor/shm ledgers, ddmin replay',
+    technique='deterministic simulation with crash injection at every libc-call boundary of the victim (seeded sampling in the quick tier, complete enumeration of base scenarios in the thorough tier), virtual time, descriptor/shm ledgers, ddmin replay',
     design_ref='DESIGN.md 4/C03',
+    level_thorough='fault_enumeration',
     assumptions=['a dead process only loses its descriptors; shared memory it wrote stays as it was'])
+PROPS['C03']['parts'] = [{'harness': 'ipc_sim', 'chunk': 40, 'share': 1.0},
+                         {'harness': 'ipc_sim', 'name': 'ipc_enum', 'prop_arg': 'C03E', 'chunk': 64, 'share': 1.0,
+                          'enum_space': 19200, 'quick_stride': True}]
 PROPS['C04'] = _ipc('no hostile party', 'at least one connection was announced and the baton changed hands more than four times',
     level_text='seeded search over histories of connects, disconnects/deaths, server-initiated disconnects from callbacks, jobs and timers, extra '
                'references dropped later, closed-callback retries, rate-limit changes, list walks and service destruction; callback-order automaton per '
@@ -271,4 +276,4 @@ NOT_APPLICABLE = {
 }
 # claimed in DESIGN.md but whose check is not built yet in this tree
 PENDING = {k: 'check not built yet (designed in DESIGN.md section 4); will be claimed when its harness lands' for k in
-           ['C02', 'C03', 'C04', 'C05', 'C06', 'C15', 'C16']}
+           ['C02', 'C03', 'C04', 'C05', 'C06', 'C16']}
